@@ -308,6 +308,22 @@ def _gen_world_once(rng, k):
             world['solvers']['']['ln'] = 'direct'
     # implicit components without their own solve need Newton at the owning group: we always give the
     # stub a solve_nonlinear/solve_linear, so run-once stacks stay valid.
+    # ---- optionally a chain of discrete variables: ivc -> stub -> stub ... (each stub passes its discrete input on)
+    if K.get('discrete') and rng.random() < K['discrete'] and \
+            not any(s_['nl'] in ('newton', 'broyden') for s_ in world['solvers'].values()):
+        # (Newton and Broyden refuse systems that contain discrete outputs)
+        chain = [c for c in comps if c['kind'] == 'aff' and not c.get('mf')]
+        if chain:
+            chain = chain[:rng.randint(1, min(3, len(chain)))] if rng.random() < 0.5 else \
+                sorted(rng.sample(chain, rng.randint(1, min(3, len(chain)))), key=lambda c_: comps.index(c_))
+            v0 = rng.choice([3, 'abc', [1, 2]])
+            dflt = {int: 0, str: '', list: []}[type(v0)]      # (a discrete connection wants compatible types)
+            ivc['discrete_out'] = [{'name': 'ivc_d0', 'val': v0}]
+            src = 'ivc_d0'
+            for c in chain:
+                c['discrete_in'] = [{'name': c['name'] + '_di', 'val': dflt, 'src': src}]
+                c['discrete_out'] = [{'name': c['name'] + '_do', 'val': dflt}]
+                src = c['name'] + '_do'
     # ---- optionally two sibling components whose names are string prefixes of each other (c1 / c1x): path
     # matching by string prefix instead of by path component then confuses them
     if K.get('prefix_sibling') and rng.random() < K['prefix_sibling']:
